@@ -1465,7 +1465,7 @@ def normalize(project) -> List[str]:
     except OSError:
         return []
     renamed = recover_renamed_anchors(project)
-    from .normalize2 import simplify_defensive, recover_loops, hoist_lambda_calls, sink_loop_exit
+    from .normalize2 import simplify_defensive, recover_loops, hoist_lambda_calls, sink_loop_exit, unroll_search_loops, search_loops_to_any, fold_local_tables, dispatch_on_constant
 
     def style_passes(fn) -> int:
         n = desugar(fn)
@@ -1475,6 +1475,10 @@ def normalize(project) -> List[str]:
         if k:
             n += k + simplify_defensive(fn)
         n += recover_loops(fn)
+        n += search_loops_to_any(fn)
+        n += unroll_search_loops(fn)
+        n += dispatch_on_constant(fn)
+        n += fold_local_tables(fn)
         k = sink_loop_exit(fn)
         if k:
             n += k + simplify_defensive(fn)
